@@ -234,3 +234,16 @@ Proof.
   - destruct (n_has_txm s); intros H; cbn in H; congruence.
   - destruct requested; intros H; cbn in H; congruence.
 Qed.
+
+(* C14: DiscardInput takes exactly the number of bytes it is asked to, for every chunk size > 0 *)
+Theorem discard_input_exact chunk n : 0 < chunk -> discard_input chunk n = n.
+Proof.
+  intros Hc. unfold discard_input.
+  pose proof (N.div_mod n chunk) as Hdm. assert (chunk <> 0) by lia. specialize (Hdm H).
+  destruct (0 <? n) eqn:E1.
+  - destruct (0 <? n mod chunk) eqn:E2; [lia|]. apply N.ltb_ge in E2. lia.
+  - apply N.ltb_ge in E1. assert (n = 0) by lia. subst. rewrite N.mod_0_l by lia. cbn. reflexivity.
+Qed.
+
+Theorem discard_chunk_positive : (0 < discard_chunk)%Z.
+Proof. reflexivity. Qed.
